@@ -13,7 +13,7 @@ _UTF8 = ['é', 'ü', '中', '文', '\U0001f600', '́',
 
 NAME_CLASSES = ['plain', 'space', 'newline', 'percent', 'odd', 'dash',
                 'dot', 'glob', 'utf8', 'badutf8', 'long', 'trashinfo',
-                'allbytes', 'trashy', 'terminal', 'normal-forms']
+                'allbytes', 'trashy', 'terminal', 'normal-forms', 'format']
 
 
 def _rand_bytes_name(rng, n, valid_utf8=None):
@@ -112,6 +112,13 @@ def hostile_name(rng, klass=None, maxbytes=48, allow_bad_utf8=True):
         n = rng.choice(['\x1b[31mred\x1b[0m', 'bell\x07', 'back\x08\x08', 'a\x1b]0;title\x07b',
                         'cr\rover', 'tab\tsep', 'nl\n   7 2001-01-01 00:00:00 /etc/passwd',
                         '\x7f', 'a\x00b'.replace('\x00', '\x01')]) + base[:2]
+    elif klass == 'format':
+        # metacharacters of the formatting mini-languages (str.format, %,
+        # string.Template, the shell): a name is data, never a template
+        n = rng.choice(['{}', '{0}', '{backup}', 'a{1}.c', '%s', '%d', '%(name)s',
+                        '{', '}', '{{}}', '{0!r:>{1}}', '$HOME', '${x}', '`id`',
+                        '$(id)', '%s%s%s%s', '{6E3C-1A}.dat']) + \
+            rng.choice(['', base[:3]])
     elif klass == 'normal-forms':
         # the same text in two Unicode normal forms: different names
         n = rng.choice(['caf\u00e9', 'cafe\u0301', '\u00c5ngstr\u00f6m',
